@@ -167,7 +167,7 @@ theorem pl_K {m : Nat} {w : WeCur} {items : List QItem} {e : Option Err}
 
 end PL
 
-theorem filter_flatMap_if {α β} (P : α → Bool) (g : α → List β) (l : List α) :
+theorem cd_filter_flatMap_if {α β} (P : α → Bool) (g : α → List β) (l : List α) :
     (l.filter P).flatMap g = l.flatMap (fun x => if P x then g x else []) := by
   induction l with
   | nil => rfl
@@ -219,7 +219,7 @@ theorem pagelinks_drain (s : State) (weid : Nat) (ps : List Bytes) (incIn incInt
           s.outLinksOfPage weid bl.1 bl.2 incInt incOut ++ s.inLinksOfPage weid bl.1 bl.2 incIn)) =
         (fun n p => (s.weDfs n p none).flatMap (fun bl => plPage s weid incIn incInt incOut (itemOf s bl))) := by
       funext n p
-      rw [filter_flatMap_if]
+      rw [cd_filter_flatMap_if]
       congr 1
       funext bl
       rw [plPage_itemOf]
